@@ -469,7 +469,15 @@ def isinstance_term(ex, v, cls):
     return z3.Or(res) if len(res) != 1 else res[0]
 
 
-for _t in ("bytes", "complex", "object", "type"):
+@builtin("type")
+def _type(ex, args, kw):
+    if getattr(ex.world, "opaque", False) and len(args) == 1:
+        from specs.opaque import fresh_opaque
+        return fresh_opaque(ex)
+    raise OutOfSubset("call of type()")
+
+
+for _t in ("bytes", "complex", "object"):
     BUILTINS[_t] = VFunc("builtin", _t, impl=lambda ex, a, k, _n=_t: (_ for _ in ()).throw(OutOfSubset(f"call of {_n}()")))
 
 
@@ -487,6 +495,32 @@ def _hasattr(ex, args, kw):
     raise OutOfSubset(f"hasattr({v!r}, {nm})")
 
 
+@builtin("setattr")
+def _setattr(ex, args, kw):
+    for h in getattr(ex.world, "setattr_hooks", ()):
+        if h(ex, args):
+            return NONE
+    obj, name, v = args
+    ns = z3.simplify(name.term)
+    if not z3.is_string_value(ns):
+        raise OutOfSubset("setattr with symbolic name")
+    ex.setattr(obj, ns.as_string(), v)
+    return NONE
+
+
+@builtin("delattr")
+def _delattr(ex, args, kw):
+    for h in getattr(ex.world, "delattr_hooks", ()):
+        if h(ex, args):
+            return NONE
+    obj = args[0]
+    if isinstance(obj, VRef) and obj.sort in ("Opaque", "Emitter"):
+        if ex.branch(z3.Bool(ex.fresh_name("delattr_missing"))):
+            raise PyRaise("AttributeError")
+        return NONE
+    raise OutOfSubset(f"delattr on {obj!r}")
+
+
 @builtin("getattr")
 def _getattr(ex, args, kw):
     h = ex.world.getattr_builtin(ex, args) if hasattr(ex.world, "getattr_builtin") else None
@@ -497,6 +531,9 @@ def _getattr(ex, args, kw):
     if not z3.is_string_value(ns):
         raise OutOfSubset("getattr with symbolic name")
     nm = ns.as_string()
+    if isinstance(v, VRef) and v.sort in ("Opaque", "Emitter") and len(args) > 2:
+        if ex.branch(z3.Bool(ex.fresh_name(f"opq_lacks_{nm}"))):
+            return args[2]
     try:
         return ex.getattr(v, nm)
     except (PyRaise, OutOfSubset) as e:
